@@ -68,7 +68,7 @@ Qed.
 Print Assumptions C09_accept_partial.
 
 (* acceptance, first half, for ALL declarations: if the provider map exists (dpm d = Some: no type has two suppliers, every
-   struct expansion has a source), the requested type is supplied, and the declared providers admit a rank - every provider
+   struct expansion has a source), the requested type is supplied, and the declared providers have a rank - every provider
    ranks above the suppliers of the types it requires, i.e. the declaration is acyclic - then the model of NewGraph accepts:
    the breadth-first construction never exhausts its fuel and the three-colour cycle check never reports a cycle; and then
    (C09_accept_partial) exactly one injector is emitted. *)
